@@ -1,0 +1,15 @@
+//go:build verif
+
+package bpmn
+
+import "sync/atomic"
+
+// VerifHook is consulted at instrumented points in verification builds
+// (build tag verif) only. It is nil unless a verification harness installs it.
+var VerifHook atomic.Pointer[func(point string, args ...any)]
+
+func verifAt(point string, args ...any) {
+	if h := VerifHook.Load(); h != nil {
+		(*h)(point, args...)
+	}
+}
